@@ -79,6 +79,17 @@ def add_attrs(rng, v, ty, allow_scale=True):
         v.add_offset = rng.choice([10.0, -3.0, 0.0])
     if rng.random() < 0.2:
         v.long_name = "var " + ty
+    add_reserved(rng, v)
+
+
+# attribute names that collide with pydap's internal `path` attribute / with python attributes of netCDF4 objects
+def add_reserved(rng, obj, p=0.12):
+    if rng.random() < p:
+        obj.setncattr("path", rng.choice(["p0", "/A", "data/in"]))
+    if rng.random() < p:
+        obj.setncattr("name", rng.choice(["temperature", "n"]))
+    if rng.random() < p / 2:
+        obj.setncattr("shape", np.array([7, 7], dtype="i4"))
 
 
 def gen_netcdf(rng, path, shadow_bias=0.6):
@@ -98,11 +109,17 @@ def gen_netcdf(rng, path, shadow_bias=0.6):
             ds.title = "generated"
         if rng.random() < 0.3:
             ds.history = "h1"
+        add_reserved(rng, ds)
         unl_len = rng.randint(0, 3)
 
-        def mkvar(grp, name, visible, coord_of=None):
+        def mkvar(grp, name, visible, coord_of=None, pseudo=False):
             ty = rng.choice(TYPES if coord_of is None else ["i2", "i4", "f4", "f8", "u1", "i1"])
-            if coord_of is not None:
+            if coord_of is not None and pseudo:
+                # named like a dimension but NOT 1-D over it: rank 0, over another dimension, or rank 2
+                others = [d for d in visible if d != coord_of]
+                shapes = [()] + [(o,) for o in others] + [(coord_of, o) for o in others] + [(o, coord_of) for o in others]
+                dims = rng.choice(shapes)
+            elif coord_of is not None:
                 dims = (coord_of,)
             else:
                 rank = rng.choice([0, 1, 1, 2, 2, 3])
@@ -129,7 +146,7 @@ def gen_netcdf(rng, path, shadow_bias=0.6):
         vis_root = list(rdims)
         for d in rdims:
             if rng.random() < 0.6:
-                mkvar(ds, d, vis_root, coord_of=d)
+                mkvar(ds, d, vis_root, coord_of=d, pseudo=rng.random() < 0.3)
         for i in range(rng.randint(1, 3)):
             mkvar(ds, "v%d" % i, vis_root)
         # groups to depth 2 with shadowing dimension names
@@ -139,6 +156,7 @@ def gen_netcdf(rng, path, shadow_bias=0.6):
             g = ds.createGroup(gnames[gi])
             if rng.random() < 0.4:
                 g.gatt = np.int32(gi)
+            add_reserved(rng, g)
             vis = list(vis_root)
             for _ in range(rng.choice([0, 1, 1, 2])):
                 dn = rng.choice(rdims) if rng.random() < shadow_bias else rng.choice(["p", "q"])
@@ -149,9 +167,10 @@ def gen_netcdf(rng, path, shadow_bias=0.6):
             for i in range(rng.randint(0, 2)):
                 mkvar(g, "%sv%d" % (gnames[gi].lower(), i), vis)
             if rng.random() < 0.5 and "x" in g.dimensions:
-                mkvar(g, "x", vis, coord_of="x")
+                mkvar(g, "x", vis, coord_of="x", pseudo=rng.random() < 0.3)
             for si in range(rng.choice([0, 0, 1, 2])):
                 sg = g.createGroup("%s%d" % (gnames[gi], si + 1))
+                add_reserved(rng, sg)
                 vis2 = list(vis)
                 for _ in range(rng.choice([0, 1, 1])):
                     dn = rng.choice(rdims) if rng.random() < shadow_bias else rng.choice(["p", "r"])
@@ -384,6 +403,30 @@ def rand_key(rng, shape):
     return key
 
 
+K_PATH = "C20.reserved_attribute_path"
+
+
+def in_path_class(in_group, file_attrs):
+    """finding class: a netCDF attribute literally named `path` on a non-root group or on a variable of one"""
+    return in_group and any(k == "path" for k, _ in file_attrs)
+
+
+def judge_attrs(ctx, what, case, got_attributes, file_attrs, in_group, internal):
+    """the node must carry exactly the file's attributes.  pydap keeps the group path of every member of a group in
+    `attributes["path"]` (and a group's dimensions in `attributes["dimensions"]`): those are not file content and are
+    dropped here unless the file itself has an attribute of that name"""
+    names = [k for k, _ in file_attrs]
+    got = [(k, canon_val(x)) for k, x in got_attributes.items()
+           if not (k in internal and k not in names) and not (k == "path" and in_group and "path" not in names)]
+    if sorted(got) == sorted(file_attrs):
+        return
+    cls = None
+    if in_path_class(in_group, file_attrs) and \
+            sorted(kv for kv in got if kv[0] != "path") == sorted(kv for kv in file_attrs if kv[0] != "path"):
+        cls = K_PATH
+    ctx.oracle_fail("%s attributes differ from the file's" % what, case, sorted(got), sorted(file_attrs), cls=cls)
+
+
 def check_netcdf(ctx, rng, idx, tmp, cases, lazy_cases, search=False):
     import netCDF4
     from webob import Request
@@ -429,9 +472,7 @@ def check_netcdf(ctx, rng, idx, tmp, cases, lazy_cases, search=False):
         if list(bt.dims) != v["fq"]:
             ctx.oracle_fail("dimension names are not the fully qualified names of the nearest enclosing declarations",
                             case, list(bt.dims), v["fq"], cls=None)
-        got_attrs = sorted((k, canon_val(x)) for k, x in bt.attributes.items() if not (g["path"] and k == "path"))
-        if got_attrs != sorted(v["attrs"]):
-            ctx.oracle_fail("variable attributes differ from the file's", case, got_attrs, sorted(v["attrs"]))
+        judge_attrs(ctx, "variable", case, bt.attributes, v["attrs"], bool(g["path"]), ())
         try:
             data = bt.data[...] if v["shape"] == [] or isinstance(bt.data, LazyVariable) else bt.data
             raw = np.ma.getdata(data) if got_ty == v["ty"] else np.asarray(data)
@@ -443,6 +484,20 @@ def check_netcdf(ctx, rng, idx, tmp, cases, lazy_cases, search=False):
                             gb if isinstance(gb, str) else gb[:8], v["raw"][:8])
         if isinstance(getattr(bt, "data", None), np.ma.MaskedArray) and np.ma.is_masked(bt.data):
             ctx.oracle_fail("values are not the raw stored values (fill values masked)", case, "masked array", "raw")
+    # groups: own dimensions (current sizes) and attributes
+    for g in [root] + groups:
+        case = dict(case0, group="/" + "/".join(g["path"]))
+        node = h.dataset
+        try:
+            for s in g["path"]:
+                node = node[s]
+        except Exception as e:  # noqa: BLE001
+            ctx.oracle_fail("file group missing from the handler dataset", case, type(e).__name__, case["group"])
+            continue
+        if list(node.attributes.get("dimensions", {}).items()) != g["dims"]:
+            ctx.oracle_fail("group does not declare the file's dimensions with their current sizes", case,
+                            list(node.attributes.get("dimensions", {}).items()), g["dims"])
+        judge_attrs(ctx, "group", case, node.attributes, g["attrs"], bool(g["path"]), ("dimensions",))
     # ---- hyperslabs through the served .dods ----------------------------------------------------------
     nslabs = 3 if not search else 5
     for g, v in all_vars:
@@ -501,11 +556,27 @@ def check_netcdf(ctx, rng, idx, tmp, cases, lazy_cases, search=False):
                     except Exception:  # noqa: BLE001
                         return "(err library)"
 
-            def run(key_sexp, np_key, reshape=None):
+            def run(key_sexp, np_key, reshape=None, as_tuple=False):
                 tgt = lv
                 if reshape is not None:
                     tgt = LazyVariable(nv, v["name"], lv.path, path)
-                    tgt.reshape(*reshape)
+                    if as_tuple:
+                        tgt.reshape(tuple(reshape))          # numpy's other calling convention
+                    else:
+                        tgt.reshape(*reshape)
+                    # direct oracle: a whole-variable read after reshape is the library's read, reshaped
+                    try:
+                        got_r = np.asarray(tgt[np_key])
+                        obs = (list(got_r.shape), bits(got_r)[:8])
+                    except Exception as e:  # noqa: BLE001
+                        obs = "escaped:" + type(e).__name__
+                    with netCDF4.Dataset(path, "r") as s3:
+                        s3.set_auto_maskandscale(False)
+                        want_r = np.asarray(s3[vid][np_key]).reshape(tuple(reshape))
+                    if obs != (list(want_r.shape), bits(want_r)[:8]):
+                        ctx.oracle_fail("whole-variable read after LazyVariable.reshape differs from the library's read, reshaped",
+                                        dict(case0, variable=vid, reshape=list(reshape), as_tuple=as_tuple), obs,
+                                        (list(want_r.shape), bits(want_r)[:8]))
                 try:
                     a = np.asarray(tgt[np_key])
                     impl = "(ok (%s) (%s))" % (" ".join(map(str, a.shape)), " ".join(map(str, bits(a))))
@@ -532,6 +603,23 @@ def check_netcdf(ctx, rng, idx, tmp, cases, lazy_cases, search=False):
                 if n > 0:
                     run("(" + " ".join("(%d %d %d)" % t for t in full) + ")", tuple(slice(a, b, k) for a, b, k in full),
                         reshape=[n])
+                    run("(" + " ".join("(%d %d %d)" % t for t in full) + ")", tuple(slice(a, b, k) for a, b, k in full),
+                        reshape=[n] if len(v["shape"]) > 1 else [1, n], as_tuple=True)
+                # bookkeeping of the object: dtype / ndim / shape / size / len, before and after reshape calls
+                ops = [rng.choice([[n], [1, n], list(v["shape"])]) for _ in range(rng.randint(0, 3))] if n > 0 else []
+                forms = [rng.choice(["ints", "seq"]) for _ in ops]
+                t2 = LazyVariable(nv, v["name"], lv.path, path)
+                for o, fm in zip(ops, forms):
+                    t2 = t2.reshape(*o) if fm == "ints" else t2.reshape(tuple(o))
+                try:
+                    ln = "(ok %d)" % len(t2)
+                except TypeError:
+                    ln = "(err typeError)"
+                impl_b = "(%s %d (%s) (%s) %d %s)" % (hs(np.dtype(t2.dtype).str.lstrip("<>|=")), t2.ndim, " ".join(map(str, t2.shape)),
+                                                      " ".join(map(str, t2._reshape)), int(t2.size), ln)
+                lazy_cases.append(("fh-lazyobj %s (%s) %d (%s)" % (hs(v["ty"]), " ".join(map(str, v["shape"])), len(v["dims"]),
+                                                                  " ".join("(%s %s)" % (fm, " ".join(map(str, o))) for o, fm in zip(ops, forms))),
+                                   impl_b, dict(case0, variable=vid, ops=ops)))
 
 
 # ------------------------------------------------------------------------------------------------
@@ -548,7 +636,8 @@ def gen_csv(rng, path):
             if k == "n":
                 row.append(rng.choice([0.0, 1.0, -2.5, 1e6, 13.1, float(rng.randint(-50, 50))]))
             else:
-                row.append(rng.choice(["", "Diamond_St", "a b", "x,y", 'q"uote', "é"[:0] + "z", "10"]))
+                row.append(rng.choice(["", "Diamond_St", "a b", "x,y", 'q"uote', "z", "10", '"', '""', "l1\nl2", "cr\rx",
+                                       "crlf\r\ny", ",", " ", "1e3", "\n"]))
         rows.append(row)
     with open(path, "w", newline="") as f:
         w = csv.writer(f, quoting=csv.QUOTE_NONNUMERIC)
@@ -639,6 +728,62 @@ def check_csv(ctx, rng, idx, tmp, cases):
               sample={"header": header, "rows": rows[:2]})
 
 
+
+# ------------------------------------------------------------------------------------------------
+# the reader's quoting rules on raw text: the generated files as they are + character soup after a valid header
+SOUP = [",", ",", '"', '"', "\n", "\r", "\r\n", "a", "b", " ", "1", "2", ".5", "e3", "-", "nan", "x"]
+
+
+def float_table(text):
+    out = {}
+    for tok in re.split(r"[,\r\n]", text):
+        if tok not in out:
+            try:
+                out[tok] = str(int.from_bytes(struct.pack(">d", float(tok)), "big"))
+            except ValueError:
+                out[tok] = "none"
+    return "(" + " ".join("(%s %s)" % (hs(k), v) for k, v in out.items()) + ")"
+
+
+def check_csv_text(ctx, rng, idx, tmp, cases, text=None):
+    from pydap.exceptions import OpenFileError
+    from pydap.handlers.csv import CSVHandler
+
+    if text is None:
+        kind = "soup"
+        text = '"a","b"' + rng.choice(["\n", "\r\n", "\r"]) + "".join(rng.choice(SOUP) for _ in range(rng.randint(0, 12)))
+    else:
+        kind = "file"
+    path = os.path.join(tmp, "s%d.csv" % idx)
+    with open(path, "w", newline="") as f:
+        f.write(text)
+    case = {"kind": "csvtext", "seed": ctx.seed, "label": ctx._label, "index": idx, "text": text}
+    # the oracle: the csv module itself on the file, opened as its documentation demands
+    try:
+        with open(path, newline="") as f:
+            want = list(csv.reader(f, quoting=csv.QUOTE_NONNUMERIC))
+        want_s = "ok" if want else "err"
+    except (ValueError, csv.Error):
+        want, want_s = None, "err"
+    try:
+        h = CSVHandler(path)
+        header = [c.name for c in h.dataset["sequence"].children()]
+        rows = [list(r) for r in h.dataset["sequence"].data.stream]
+        impl = "(ok (%s) (%s))" % (" ".join(cell_sexp(x) for x in header),
+                                   " ".join("(" + " ".join(cell_sexp(x) for x in r) + ")" for r in rows))
+        got = [header] + rows
+    except OpenFileError:
+        impl, got = "(err)", None
+    except Exception as e:  # noqa: BLE001
+        impl, got = "escaped:" + type(e).__name__, None
+    canon = lambda recs: [[cell_sexp(c) for c in r] for r in recs]  # noqa: E731  (floats as bit patterns: nan == nan)
+    if (got is None) != (want_s == "err") or (got is not None and canon(got) != canon(want)):
+        ctx.oracle_fail("CSV records differ from the csv module's reading of the file (QUOTE_NONNUMERIC)", case,
+                        impl[:200], repr(want)[:200])
+    cases.append(("fh-csvtext %s %s" % (hs(text), float_table(text)), impl, {k: case[k] for k in ("kind", "seed", "label", "index")}))
+    ctx.count(("csvtext", text), kind == "soup" and impl != "(err)", tag="csvtext:%s:%s" % (kind, "ok" if impl != "(err)" else "rejected"),
+              sample={"text": text[:60]})
+
 # ------------------------------------------------------------------------------------------------
 def explore(ctx, tier, search=False):
     n_nc = 40 if tier == "quick" else 400
@@ -649,11 +794,17 @@ def explore(ctx, tier, search=False):
         cases, lazy_cases, csv_cases = [], [], []
         for i in range(n_nc):
             check_netcdf(ctx, ctx.rng("%s-nc-%d" % (ctx._label, i)), i, tmp, cases, lazy_cases, search=search)
+        text_cases = []
         for i in range(n_csv):
             check_csv(ctx, ctx.rng("%s-csv-%d" % (ctx._label, i)), i, tmp, csv_cases)
+            with open(os.path.join(tmp, "c%d.csv" % i), newline="") as f:
+                check_csv_text(ctx, None, i, tmp, text_cases, text=f.read())
+        for i in range(n_csv * 10):
+            check_csv_text(ctx, ctx.rng("%s-soup-%d" % (ctx._label, i)), n_csv + i, tmp, text_cases)
         ctx.correspond("NetCDFHandler.__init__/group_fqn (dataset tree)", cases)
         ctx.correspond("LazyVariable.__getitem__", lazy_cases)
         ctx.correspond("CSVHandler.__init__ (+ side-car)", csv_cases)
+        ctx.correspond("csv.reader(QUOTE_NONNUMERIC) as used by CSVHandler/CSVData.stream (raw text)", text_cases)
     finally:
         shutil.rmtree(tmp, ignore_errors=True)
 
@@ -672,7 +823,31 @@ def run(ctx):
     explore(ctx, ctx.tier)
     from collections import Counter
     ctx.extra["oracle_failure_kinds"] = dict(Counter(f["what"] for f in ctx.oracle_failures))
-    return ctx.finish(search=lambda c: explore(c, "quick", search=True))
+    return ctx.finish(search=lambda c: explore(c, "quick", search=True), witnesses={K_PATH: witness_path})
+
+
+def witness_path():
+    """Lean `pathWitness`: /A/u with the netCDF attribute path='p0' — still not exposed?"""
+    import netCDF4
+
+    from pydap.handlers.netcdf import NetCDFHandler
+
+    tmp = tempfile.mkdtemp(prefix="c20w-")
+    try:
+        p = os.path.join(tmp, "w.nc")
+        with netCDF4.Dataset(p, "w") as ds:
+            ds.createDimension("x", 2)
+            g = ds.createGroup("A")
+            u = g.createVariable("u", "i4", ("x",))
+            u[...] = [1, 2]
+            u.setncattr("path", "p0")
+            u.units = "m"
+        with warnings.catch_warnings():
+            warnings.simplefilter("ignore")
+            a = NetCDFHandler(p).dataset["A"]["u"].attributes
+        return a.get("path") != "p0" and a.get("units") == "m"
+    finally:
+        shutil.rmtree(tmp, ignore_errors=True)
 
 
 def replay(payload):
@@ -685,7 +860,9 @@ def replay(payload):
     ctx._label = case["label"]
     tmp = tempfile.mkdtemp(prefix="c20r-")
     try:
-        if case["kind"] == "csv":
+        if case["kind"] == "csvtext":
+            check_csv_text(ctx, None, case["index"], tmp, [], text=case["text"])
+        elif case["kind"] == "csv":
             check_csv(ctx, ctx.rng("%s-csv-%d" % (case["label"], case["index"])), case["index"], tmp, [])
         else:
             check_netcdf(ctx, ctx.rng("%s-nc-%d" % (case["label"], case["index"])), case["index"], tmp, [], [],
